@@ -616,7 +616,9 @@ class Result(JsonSerializable):
             assert isinstance(p_value, (int, np.integer)), (
                 "Value for the CHOICETYPE must be an integer.")
 
-            self._value[p_value] += 1
+            # A bool is an int, but as a numpy index it is a mask (True would
+            # count one occurrence for every choice and False for none)
+            self._value[int(p_value)] += 1
             self._total += 1
             if self._accumulate_values_bool is True:
                 self._value_list.append(p_value)
